@@ -9,6 +9,22 @@ var crashAssume = []string{
 
 func init() {
 	crashRule := "explicit-state search over durable disk images: from every image, every workload up to the level's length bound over the level's alphabet is recorded once on the real wal+segment+fs code over a simulated OS; at every I/O boundary every crash image (every subset of un-fsynced 8-byte chunks x pending directory operations x pending length changes, capped per crash point) is recovered with the real Open and compared with the models legal at that point; an image is non-trivial when at least one pending item landed and at least one did not"
+	seqRule := "every operation sequence of length 1..depth over a model-dependent alphabet (valid and invalid appends, every DeleteRange shape, stable-store operations, clean reopen), each followed by a clean reopen, executed on the real code (simulated disk; up to real_stack_depth also on the real filesystem with real bbolt, answers compared step by step) and compared with the reference model after every step; a sequence is non-trivial when it ends with a non-empty log"
+	seqAssume := []string{"sequential use (one caller); background rotation completes between calls", "entry payloads from a small size alphabet; stable keys k1,k2", "simulated disk + simMeta for the deep runs; real fs + bbolt for the shallow conformance runs"}
+	reg(&spec{ID: "C05", Overlay: "full", Shards: [2]int{16, 16}, BudgetS: [2]int{45, 900}, Level: "model_checking", Rule: seqRule, Assume: seqAssume,
+		Technique: "bounded-exhaustive enumeration of operation sequences on the real code against a reference model, with step-by-step conformance of the simulated stack against real fs+bbolt"})
+	reg(&spec{ID: "C20", Overlay: "full", Shards: [2]int{16, 16}, BudgetS: [2]int{30, 600}, Level: "model_checking", Rule: seqRule + "; AtomicCollector built from the published definitions (an undeclared name panics), counters compared with the totals of the calls the harness issued; plus the finite set of IncrementCounter/SetGauge call sites from go/ast", Assume: seqAssume,
+		Technique: "bounded-exhaustive enumeration of operation sequences with a metrics reference model, plus exhaustive enumeration of emitting call sites"})
+	schedAssume := []string{"sequentially consistent interleavings at synchronisation operations (mutex, atomic, channel, spawn) and simulated-disk I/O calls; unsynchronised accesses are left to the separate free-running -race pass", "scenarios are closed 2-3 thread harnesses with 1-3 operations per thread on colliding indexes; simMeta stands in for bbolt"}
+	schedRule := "stateless depth-first exploration of every schedule of each scenario up to the preemption bound (iterative context bounding), every sync/atomic/channel/go operation of wal, segment, fs and every simulated I/O call being a scheduling point; each complete execution's invocation/response history is checked against the versions of the reference model current during each call; distinct = distinct observed histories"
+	reg(&spec{ID: "C06", Overlay: "full", Race: true, Shards: [2]int{16, 16}, BudgetS: [2]int{60, 900}, Level: "model_checking", Rule: schedRule, Assume: schedAssume,
+		Technique: "stateless model checking: preemption-bounded exhaustive schedule exploration of the real code under a cooperative scheduler, interval-linearizability oracle; separate free-running race-detector pass"})
+	reg(&spec{ID: "C14", Overlay: "full", Shards: [2]int{16, 16}, BudgetS: [2]int{60, 900}, Level: "model_checking", Rule: schedRule, Assume: schedAssume,
+		Technique: "stateless model checking: preemption-bounded exhaustive schedule exploration of Close against every API call under a cooperative scheduler"})
+	for _, id := range []string{"C08", "C13"} {
+		reg(&spec{ID: id, Overlay: "full", Shards: [2]int{16, 16}, BudgetS: [2]int{60, 900}, Level: "model_checking", Rule: seqRule + " || " + crashRule, Assume: append(append([]string{}, seqAssume...), crashAssume...),
+			Technique: "bounded-exhaustive operation sequences against a reference model plus explicit-state model checking of crash images"})
+	}
 	for _, id := range []string{"C01", "C02", "C03", "C04"} {
 		reg(&spec{ID: id, Overlay: "full", Shards: [2]int{16, 16}, BudgetS: [2]int{45, 900}, Level: "model_checking",
 			Rule: crashRule, Assume: crashAssume,
